@@ -716,7 +716,7 @@ def process_file(sp, fspec, g):
     def wanted_keep(it):
         head = rs.norm(toks, it.head_lo, it.body_lo if it.body_lo else it.hi)
         for kind, text in fspec.keep:
-            if kind == it.kind and (it.name == text or rs.norm_text(text) in head):
+            if kind == it.kind and (it.name == text or (it.name is None and rs.norm_text(text) in head)):
                 return True
         return False
 
